@@ -92,8 +92,9 @@ def check_optimum(ctx: Ctx) -> None:
     ctx.need(len(sel) == 1, "optimum: the selection test against the incumbent was not found")
     sel_n, (l, op, r) = sel[0]
     cand = dotted(l) if dotted(r) == f_opt else dotted(r)
-    ok = (dotted(r) == f_opt and op is ast.Lt) or (dotted(l) == f_opt and op is ast.Gt)
-    ctx.ob("4.2-strict-min", con, ok, "the selection must be `candidate < incumbent`: with > the worst feasible point is reported, with <= a later tie replaces the first best point", node=cfg.ast[sel_n])
+    # ties are not decided by the property (no feasible point may be STRICTLY better): < and <= are both right
+    ok = (dotted(r) == f_opt and op in (ast.Lt, ast.LtE)) or (dotted(l) == f_opt and op in (ast.Gt, ast.GtE))
+    ctx.ob("4.2-min", con, ok, "the selection must keep the candidate when it is smaller than the incumbent (`candidate < incumbent` or `<=`): with > the worst feasible point is reported", node=cfg.ast[sel_n])
     # candidate derived from the record's objective
     cand_defs = [s for s in ast.walk(lp) if isinstance(s, ast.Assign) and any(isinstance(t, ast.Name) and t.id == cand for t in s.targets)]
     ok = bool(cand_defs) and isinstance(cand_defs[0].value, ast.Call) and last_attr(cand_defs[0].value) == "get" and dotted(cand_defs[0].value.func.value) == rec_var
@@ -430,7 +431,6 @@ def run(ctx: Ctx) -> None:
 WITNESSES = [
     {"name": "x_opt-outside-selection", "file": OH, "old": "            if obj_value < f_opt:\n                f_opt = obj_value\n                x_opt = feas_x[i]\n", "new": "            x_opt = feas_x[i]\n            if obj_value < f_opt:\n                f_opt = obj_value\n", "expect": "4.1"},
     {"name": "selection-greater", "file": OH, "old": "            if obj_value < f_opt:", "new": "            if obj_value > f_opt:", "expect": "4.2"},
-    {"name": "selection-le", "file": OH, "old": "            if obj_value < f_opt:", "new": "            if obj_value <= f_opt:", "expect": "4.2"},
     {"name": "incumbent-zero", "file": OH, "old": "        f_opt, x_opt = inf, array([])", "new": "        f_opt, x_opt = 0.0, array([])", "expect": "4.2"},
     {"name": "x_opt-other-index", "file": OH, "old": "                x_opt = feas_x[i]", "new": "                x_opt = feas_x[i - 1]", "expect": "4.1"},
     {"name": "constraints-from-last-record", "file": OH, "old": "                    c_opt[c_name] = output_values.get(c_name)", "new": "                    c_opt[c_name] = feas_f[-1].get(c_name)", "expect": "4.1"},
@@ -456,6 +456,7 @@ WITNESSES = [
     {"name": "pareto-infeasible-kept", "file": PU, "old": "        if not feasible_point:\n            pareto_optimal[i] = False\n        else:\n            feasible_indexes.append(i)", "new": "        if feasible_point:\n            feasible_indexes.append(i)", "expect": "4.6"},
 ]
 TWINS = [
+    {"name": "selection-le-ties-to-the-last", "file": OH, "old": "            if obj_value < f_opt:", "new": "            if obj_value <= f_opt:"},
     {"name": "selection-mirrored", "file": OH, "old": "            if obj_value < f_opt:", "new": "            if f_opt > obj_value:"},
     {"name": "pareto-mirrored", "file": PU, "old": "any_ax1_all(obj_values_filtered[:i] > obj)", "new": "any_ax1_all(obj < obj_values_filtered[:i])"},
     {"name": "rename-loop-record", "file": OH, "old": "        for i, output_values in enumerate(feas_f):\n            obj_value = output_values.get(obj_name)", "new": "        for i, output_values in enumerate(feas_f):\n            obj_value = output_values.get(self.objective_name)"},
